@@ -12,6 +12,7 @@
 (*   | arr(items,minI,maxI,uniq) | obj(props,addl,minP,maxP)               *)
 (*   | nullable(s) | enum(vals, s) | allOf(ss) | oneOf(ss) | anyOf(ss)     *)
 (*   | self  (a reference to the enclosing root schema: recursion)         *)
+(*   | fmt(ty, name)  (type ty with `format: name`)                        *)
 (* Bounds use NONE (= 0 - 1000) for "keyword absent".                      *)
 (* A property record is [name, s, req, decl]; decl = FALSE is a name that  *)
 (* appears under `required` only (not under `properties`).                 *)
@@ -28,11 +29,37 @@ S(s) == [t |-> "str", s |-> s]
 A(v) == [t |-> "arr", v |-> v]
 O(m) == [t |-> "obj", m |-> m]
 
+\* characters of the concrete text of each multi-character symbol (cross-checked by the harness against its table)
+SymInfo == [d_1 |-> [len |-> 10, hasb |-> FALSE], d_feb30 |-> [len |-> 10, hasb |-> FALSE], d_short |-> [len |-> 8, hasb |-> FALSE], dt_feb30 |-> [len |-> 20, hasb |-> FALSE], dt_frac |-> [len |-> 22, hasb |-> FALSE], dt_month13 |-> [len |-> 20, hasb |-> FALSE], dt_nozone |-> [len |-> 19, hasb |-> FALSE], dt_off |-> [len |-> 25, hasb |-> FALSE], dt_plus |-> [len |-> 25, hasb |-> FALSE], dt_z |-> [len |-> 20, hasb |-> FALSE], du_1 |-> [len |-> 6, hasb |-> FALSE], du_1h30m0s |-> [len |-> 7, hasb |-> FALSE], du_90m |-> [len |-> 3, hasb |-> FALSE], du_bad |-> [len |-> 2, hasb |-> FALSE], du_frac |-> [len |-> 4, hasb |-> FALSE], ip_1 |-> [len |-> 11, hasb |-> FALSE], ip_256 |-> [len |-> 9, hasb |-> FALSE], si_12 |-> [len |-> 2, hasb |-> FALSE], si_7 |-> [len |-> 1, hasb |-> FALSE], si_big |-> [len |-> 19, hasb |-> FALSE], si_frac |-> [len |-> 3, hasb |-> FALSE], si_neg |-> [len |-> 2, hasb |-> FALSE], t_1 |-> [len |-> 8, hasb |-> FALSE], t_25h |-> [len |-> 8, hasb |-> FALSE], t_frac |-> [len |-> 10, hasb |-> FALSE], u_1 |-> [len |-> 36, hasb |-> TRUE], u_short |-> [len |-> 8, hasb |-> FALSE], u_upper |-> [len |-> 36, hasb |-> FALSE]]
+FmtSyms == DOMAIN SymInfo
+
 \* the three patterns of the fragment, by name (their meaning is C08's business)
 Pat(p, s) ==
   CASE p = "" -> TRUE
     [] p = "^a+$" -> s # <<>> /\ \A i \in 1..Len(s) : s[i] = "a"
-    [] p = "b" -> \E i \in 1..Len(s) : s[i] = "b"
+    [] p = "b" -> \E i \in 1..Len(s) : s[i] = "b" \/ (s[i] \in DOMAIN SymInfo /\ SymInfo[s[i]].hasb)
+\* length in characters: a symbol is one character unless the table says otherwise
+RECURSIVE Chars(_)
+Chars(s) == IF s = <<>> THEN 0 ELSE (IF Head(s) \in DOMAIN SymInfo THEN SymInfo[Head(s)].len ELSE 1) + Chars(Tail(s))
+
+(* Formats.  A formatted string is one symbol of the table below; the harness owns  *)
+(* the concrete text of each symbol (harness/prop/c03 Symbols).  ok = the text is  *)
+(* a spelling of a value of the format; echo = the symbol of the canonical         *)
+(* spelling of that value (what a codec that loses nothing writes back).           *)
+FRow(sym, fmt, ok, echo) == [sym |-> sym, fmt |-> fmt, ok |-> ok, echo |-> echo]
+FmtTable == {
+  FRow("dt_z", "date-time", TRUE, "dt_z"), FRow("dt_plus", "date-time", TRUE, "dt_z"), FRow("dt_off", "date-time", TRUE, "dt_off"),
+  FRow("dt_frac", "date-time", TRUE, "dt_frac"), FRow("dt_month13", "date-time", FALSE, ""), FRow("dt_nozone", "date-time", FALSE, ""), FRow("dt_feb30", "date-time", FALSE, ""),
+  FRow("d_1", "date", TRUE, "d_1"), FRow("d_feb30", "date", FALSE, ""), FRow("d_short", "date", FALSE, ""), FRow("dt_z", "date", FALSE, ""),
+  FRow("t_1", "time", TRUE, "t_1"), FRow("t_frac", "time", TRUE, "t_frac"), FRow("t_25h", "time", FALSE, ""),
+  FRow("u_1", "uuid", TRUE, "u_1"), FRow("u_upper", "uuid", TRUE, "u_1"), FRow("u_short", "uuid", FALSE, ""),
+  FRow("ip_1", "ipv4", TRUE, "ip_1"), FRow("ip_256", "ipv4", FALSE, ""), FRow("u_1", "ipv4", FALSE, ""),
+  FRow("du_1", "duration", TRUE, "du_1"), FRow("du_90m", "duration", TRUE, "du_1h30m0s"), FRow("du_frac", "duration", TRUE, "du_frac"), FRow("du_bad", "duration", FALSE, ""),
+  FRow("si_12", "int64", TRUE, "si_12"), FRow("si_neg", "int64", TRUE, "si_neg"), FRow("si_7", "int64", TRUE, "si_7"), FRow("du_1h30m0s", "duration", TRUE, "du_1h30m0s"), FRow("si_frac", "int64", FALSE, ""), FRow("si_big", "int64", FALSE, "")}
+StrFormats == {"date-time", "date", "time", "uuid", "ipv4", "duration", "int64"}
+IntFormats == {"unix-seconds", "unix-milli", "int32", "int64"}
+FmtOK(name, sym) == \E r \in FmtTable : r.sym = sym /\ r.fmt = name /\ r.ok
+FmtEcho(name, sym) == (CHOOSE r \in FmtTable : r.sym = sym /\ r.fmt = name /\ r.ok).echo
 
 Names(m) == {m[i][1] : i \in 1..Len(m)}
 Get(m, name) == (CHOOSE i \in 1..Len(m) : m[i][1] = name)
@@ -54,7 +81,8 @@ V(root, S0, v) ==
     [] S0.k = "nullable" -> IF v.t = "null" THEN NullListed(S0.s) ELSE V(root, S0.s, v)
     [] S0.k = "enum" -> (\E i \in 1..Len(S0.vals) : S0.vals[i] = v) /\ V(root, S0.s, v)
     [] S0.k = "bool" -> v.t = "bool"
-    [] S0.k = "str" -> v.t = "str" /\ Len(v.s) >= S0.minL /\ (S0.maxL # NONE => Len(v.s) <= S0.maxL) /\ Pat(S0.pat, v.s)
+    [] S0.k = "fmt" -> IF S0.ty = "string" THEN v.t = "str" /\ Len(v.s) = 1 /\ FmtOK(S0.name, v.s[1]) ELSE v.t = "num" /\ v.n % 10 = 0
+    [] S0.k = "str" -> v.t = "str" /\ Chars(v.s) >= S0.minL /\ (S0.maxL # NONE => Chars(v.s) <= S0.maxL) /\ Pat(S0.pat, v.s)
     [] S0.k = "int" -> v.t = "num" /\ v.n % 10 = 0 /\ NumOK(S0, v.n)
     [] S0.k = "num" -> v.t = "num" /\ NumOK(S0, v.n)
     [] S0.k = "arr" -> /\ v.t = "arr" /\ Len(v.v) >= S0.minI /\ (S0.maxI # NONE => Len(v.v) <= S0.maxI)
@@ -100,7 +128,7 @@ VI(root, S0, v, D) ==
                                                  /\ ("Dev_NullableEnumAcceptsNull" \in D \/ NullListed(S0.s))
                             ELSE VI(root, S0.s, v, D)
     [] S0.k = "enum" -> (\E i \in 1..Len(S0.vals) : S0.vals[i] = v) /\ VI(root, S0.s, v, D)
-    [] S0.k \in {"bool", "str", "int", "num"} -> V(root, S0, v)
+    [] S0.k \in {"bool", "str", "int", "num", "fmt"} -> V(root, S0, v)
     [] S0.k = "arr" -> /\ v.t = "arr" /\ Len(v.v) >= S0.minI /\ (S0.maxI # NONE => Len(v.v) <= S0.maxI)
                        /\ (S0.uniq => \A i, j \in 1..Len(v.v) : i # j => v.v[i] # v.v[j])
                        /\ \A i \in 1..Len(v.v) : VI(root, S0.items, v.v[i], D)
@@ -144,6 +172,7 @@ AllOf(ss) == [k |-> "allOf", ss |-> ss]
 OneOf(ss) == [k |-> "oneOf", ss |-> ss]
 AnyOf(ss) == [k |-> "anyOf", ss |-> ss]
 Self == [k |-> "self"]
+Fmt(ty, name) == [k |-> "fmt", ty |-> ty, name |-> name]
 
 \* additionalProperties: true / false (or a schema)
 AT == [k |-> "addl_true"]
@@ -200,19 +229,25 @@ SumSchemas == {OneOf(<<AnyStr, AnyInt>>),
 \* required-mask byte boundaries: 9 and 17 properties, the last one required
 Letters == <<"a", "b", "c", "d", "e", "f", "g", "h", "i", "j", "k", "l", "m", "n", "o", "p", "q">>
 Wide(n) == Obj([i \in 1..n |-> P(Letters[i], AnyInt, i \in {1, 8, 9, n})], AF, 0, NONE)
-Schemas == StrSchemas \cup IntSchemas \cup NumSchemas \cup ArrSchemas \cup ObjSchemas \cup SumSchemas \cup {Bool, Nullable(Bool), AnyS, Wide(9), Wide(17)}
+FmtSchemas == {Fmt("string", f) : f \in StrFormats} \cup {Fmt("integer", f) : f \in IntFormats}
+              \cup {Nullable(Fmt("string", "date-time")), Arr(Fmt("string", "date"), 0, NONE, FALSE), Arr(Fmt("string", "uuid"), 0, 2, TRUE),
+                    Obj(<<P("a", Fmt("string", "date-time"), FALSE), P("b", Fmt("integer", "unix-seconds"), FALSE)>>, AF, 0, NONE),
+                    Obj(<<P("a", Nullable(Fmt("string", "duration")), TRUE)>>, AF, 0, NONE), Obj(<<>>, Fmt("string", "time"), 0, NONE),
+                    OneOf(<<Fmt("integer", "int64"), Fmt("string", "uuid")>>)}
+Schemas == FmtSchemas \cup StrSchemas \cup IntSchemas \cup NumSchemas \cup ArrSchemas \cup ObjSchemas \cup SumSchemas \cup {Bool, Nullable(Bool), AnyS, Wide(9), Wide(17)}
 
 (****************************** instance domain ****************************)
 Leaves == {Null, B(TRUE), B(FALSE), N(0), N(10), N(20), N(30), N(40), N(5), N(15), N(1), N(0 - 10), N(0 - 20), N(0 - 30), N(0 - 60), N(0 - 160), S(<<>>), S(<<"a">>), S(<<"a", "a">>), S(<<"a", "a", "a">>), S(<<"b">>), S(<<"a", "b">>), S(<<"b", "b">>), S(<<"e">>),
            \* strings the JSON codec has to escape or pass through: each symbol is one character
            \* (quote, backslash, line feed, NUL, U+2028, an astral character, U+00E9, '<')
-           S(<<"quote">>), S(<<"bslash", "a">>), S(<<"nl">>), S(<<"nul", "b">>), S(<<"ls">>), S(<<"astral", "ee">>), S(<<"lt", "quote", "bslash">>)}
+           S(<<"quote">>), S(<<"bslash", "a">>), S(<<"nl">>), S(<<"nul", "b">>), S(<<"ls">>), S(<<"astral", "ee">>), S(<<"lt", "quote", "bslash">>)} \cup {S(<<x>>) : x \in FmtSyms}
 Small == {Null, N(10), N(5), S(<<"a">>), S(<<"a", "a">>), N(20)}
 Arrays == {A(<<>>)} \cup {A(<<x>>) : x \in Leaves} \cup {A(<<x, y>>) : x \in Small, y \in Small} \cup {A(<<N(10), N(20), N(30)>>), A(<<A(<<N(10)>>)>>), A(<<A(<<N(10), N(20)>>)>>), A(<<S(<<"a">>), S(<<"a">>), S(<<"b">>)>>)}
 Keys == {"a", "b", "c"}
 Objects == {O(<<>>)} \cup {O(<< <<k, x>> >>) : k \in Keys, x \in Leaves}
            \cup {O(<< <<"a", x>>, <<"b", y>> >>) : x \in Small, y \in Small} \cup {O(<< <<"b", y>>, <<"a", x>> >>) : x \in {S(<<"a">>), N(10)}, y \in {N(10), S(<<"a">>)}}
            \cup {O(<< <<"a", x>>, <<"c", y>> >>) : x \in {S(<<"a">>), N(10), A(<<N(10)>>)}, y \in {B(TRUE), N(10), Null}}
+           \cup {O(<< <<"a", S(<<"dt_z">>)>>, <<"b", y>> >>) : y \in {N(10), N(5), S(<<"dt_z">>)}}
            \cup {O(<< <<"a", O(<< <<"b", y>> >>)>> >>) : y \in {N(10), S(<<"a">>), Null}} \cup {O(<< <<"a", O(<<>>)>> >>), O(<< <<"a", A(<<N(10), N(10)>>)>> >>), O(<< <<"a", A(<<>>)>> >>)}
            \cup {O(<< <<"a", N(10)>>, <<"c", O(<< <<"a", y>> >>)>> >>) : y \in {N(20), S(<<"a">>)}} \cup {O(<< <<"a", N(10)>>, <<"c", O(<< <<"a", N(20)>>, <<"c", O(<< <<"a", N(30)>> >>)>> >>)>> >>)}
            \cup {O(<< <<"a", S(<<"a">>)>>, <<"b", N(10)>>, <<"c", B(TRUE)>> >>), O(<< <<"a", S(<<"a">>)>>, <<"b", N(10)>>, <<"c", N(10)>> >>)}
